@@ -59,8 +59,12 @@ HasMro(ev, name) == \E i \in 1..Len(ev.res.mro) : ev.res.mro[i] = name
 
 \* ---------------------------------------------------------------- clauses
 \* structural soundness of the observed file (C03)
+\* (a file whose table could not be parsed in full - shorter than its header says, or the header
+\* overwritten - has no slots to speak about: the other clauses are not evaluated on it)
+Parsed(f, d) == Len(f.table) = f.n /\ ~d.short
 C03(f, g, d) ==
-     If(~(f.sigok /\ f.version = g.v0 /\ f.n = g.n0 /\ Len(f.table) = f.n /\ ~d.short), "C03:header")
+  IF ~Parsed(f, d) THEN {"C03:header"}
+  ELSE If(~(f.sigok /\ f.version = g.v0 /\ f.n = g.n0), "C03:header")
   \cup If(~RangesOK(f) \/ d.flen # FileLen(f), "C03:range")
   \cup If(~NoOverlap(f), "C03:overlap")
   \cup If(~UnusedZero(f), "C03:unused_size")
@@ -129,7 +133,7 @@ C11view(f, v) ==
                  LET t == T.types[k] IN
                  /\ v.getter[k] # -3
                  /\ \/ ~HasType(f, t) /\ v.getter[k] # Raised
-                    \/ HasType(f, t) /\ v.getter[k] # ContentOf(f, FirstOf(f, t)), "C11:getter")
+                    \/ HasType(f, t) /\ t \in Decodable /\ v.getter[k] # ContentOf(f, FirstOf(f, t)), "C11:getter")
        \cup If(Len(v.idx) # f.n \/ \E i \in 1..f.n :
                  LET e == f.table[i] IN
                  /\ i <= Len(v.idx)
@@ -212,11 +216,11 @@ StepClauses(pre, ev, o, out, f, g2) ==
   \cup If(sound /\ ~UniqueTypes(f), "C11:duplicate_types")
   \* (two live ranges that overlap, or a live range outside the file, cannot both / at all hold
   \* the bytes that were stored: the frame condition is broken together with C03)
-  \cup (IF sound THEN C04(f, g2) \cup C04read(g2, ob.view) ELSE If(~NoOverlap(f) \/ ~RangesOK(f) \/ d.flen # FileLen(f), "C04:content"))
+  \cup (IF sound THEN C04(f, g2) \cup C04read(g2, ob.view) ELSE If(~Parsed(f, d) \/ ~NoOverlap(f) \/ ~RangesOK(f) \/ d.flen # FileLen(f), "C04:content"))
   \* (the length clauses only need the table and the file length: they are judged even when
   \* the file is structurally broken)
   \cup (IF sound THEN C09(f, g2)
-        ELSE If(g2.compact /\ d.flen # TableEnd(f) + LiveSum(f, f.n), "C09:file_length"))
+        ELSE If(g2.compact /\ Parsed(f, d) /\ d.flen # TableEnd(f) + LiveSum(f, f.n), "C09:file_length"))
   \cup (IF pre.s.g.compact /\ ok /\ o.op = "add" /\ d.flen # pre.flen + o.b.sz THEN {"C09:grow_exact"} ELSE {})
   \cup (IF pre.s.g.compact /\ ok /\ o.op = "remove" /\ HasType(pre.s.f, o.t)
            /\ d.flen # pre.flen - pre.s.f.table[FirstOf(pre.s.f, o.t)].size THEN {"C09:shrink_exact"} ELSE {})
@@ -225,7 +229,16 @@ StepClauses(pre, ev, o, out, f, g2) ==
         ELSE IF d.short \/ Len(f.table) # f.n THEN {}
         ELSE If(ob.mem.inside /\ ob.mem.has_entries /\ AbsTable(ob.mem.entries) # f.table, "C10:mem_ne_disk")
              \cup If(ob.reopen.ok /\ AbsTable(ob.reopen.entries) # f.table, "C10:reopen_ne_disk"))
-  \cup (IF sound THEN C11view(f, ob.view) ELSE {})
+  \* (on a file that is no longer sound the accessors are judged against the file the model predicts
+  \* for this accepted call: "at every point ... report exactly the set of live blocks" - the blocks
+  \* the history made live.  On a tree where C03 holds this branch is never taken.)
+  \cup (IF sound THEN C11view(f, ob.view)
+        ELSE IF ok /\ exp /\ mut /\ Parsed(f, d)
+             THEN C11view(out.f, ob.view)
+                  \* ... and what a fresh object finds in the table (its presence checks and count read nothing else)
+                  \cup If(ob.reopen.ok /\ {ob.reopen.entries[i][1] : i \in 1..Len(ob.reopen.entries)} \ {0} # LiveTypes(out.f),
+                          "C11:presence_after_reopen")
+             ELSE {})
   \* --- exact conformance with the predicted file
   \cup If(sound /\ ok /\ exp /\ mut /\
             \E i \in 1..f.n : i <= Len(out.f.table) /\
